@@ -20,7 +20,7 @@
 (*           | [s |-> "select", e, cases <<[lo, hi, body]>>, default]       *)
 (*           | [s |-> "call", name, args] | [s |-> "print", items]          *)
 (*           | [s |-> "exit"] | [s |-> "cycle"] | [s |-> "return"]          *)
-(*           | [s |-> "assoc", names, targets, body] | [s |-> "where", mask, body, els] *)
+(*           | [s |-> "assoc", names, targets, body] | [s |-> "where", conds, bodies, els] *)
 (* Machine state S = [env, out, st, why]:  env name -> value, out the       *)
 (* sequence of printed scalar values, st in ok/exit/cycle/return/err.       *)
 (* Arrays: [t |-> "arr", lb, ub (sequences), data (index tuple -> scalar)].  *)
@@ -201,23 +201,29 @@ StoreScalar(S, u, name, ix, v) ==
   ELSE [S EXCEPT !.env[name].data[ix] = cv]
 
 \* assignment: scalar, element, or array section / whole array (RHS evaluated for every element
-\* from the OLD state before any element is stored)
-Assign(P, u, S, lhs0, rhs) ==
+\* from the OLD state before any element is stored).  mk = [on |-> FALSE] for an ordinary assignment;
+\* inside WHERE mk = [on |-> TRUE, ps |-> the selected positions, shape]: only those positions are
+\* evaluated and stored, the target must have the mask's shape.
+AssignShape(P, S, lhs) ==
+  LET tgt == S.env[lhs.name] IN
+  IF lhs.k = "var" /\ tgt.t = "arr" THEN [d \in 1..Len(tgt.lb) |-> tgt.ub[d] - tgt.lb[d] + 1]
+  ELSE IF lhs.k = "arr" /\ tgt.t = "arr" THEN SecShape(P, tgt, lhs.c, S.env, 1) ELSE <<>>
+AssignM(P, u, S, lhs0, rhs, mk) ==
   IF lhs0.name \notin DOMAIN S.env THEN Fail(S, "undeclared")
   ELSE LET lhs == RealRef(S.env, lhs0)
            tgt == S.env[lhs.name]
            whole == lhs.k = "var" /\ tgt.t = "arr"
            subs == IF lhs.k = "arr" THEN lhs.c ELSE <<>>
-           shape == IF whole THEN [d \in 1..Len(tgt.lb) |-> tgt.ub[d] - tgt.lb[d] + 1]
-                    ELSE IF lhs.k = "arr" /\ tgt.t = "arr" THEN SecShape(P, tgt, subs, S.env, 1) ELSE <<>>
+           shape == AssignShape(P, S, lhs)
        IN
-       IF shape = <<>>
+       IF mk.on /\ shape # mk.shape THEN Fail(S, "where-shape")
+       ELSE IF shape = <<>>
        THEN LET v == EvalE(P, rhs, S.env, <<>>) IN
             IF IsErr(v) THEN Fail(S, v.why)
             ELSE IF lhs.k = "var" THEN StoreScalar(S, u, lhs.name, <<>>, v)
             ELSE LET r == SubIdx(P, tgt, subs, S.env, <<>>, 1, 1) IN
                  IF ~r.ok THEN Fail(S, "subscript") ELSE StoreScalar(S, u, lhs.name, r.ix, v)
-       ELSE LET ps == PosSet(shape)
+       ELSE LET ps == IF mk.on THEN mk.ps ELSE PosSet(shape)
                 vals == TLCEval([p \in ps |-> Conv(Decl(u, lhs.name).type, EvalE(P, rhs, S.env, p))])
                 ixs == TLCEval([p \in ps |-> IF whole THEN [d \in 1..Len(p) |-> tgt.lb[d] + p[d] - 1]
                                      ELSE SubIdx(P, tgt, subs, S.env, p, 1, 1).ix])
@@ -226,6 +232,32 @@ Assign(P, u, S, lhs0, rhs) ==
                ELSE [S EXCEPT !.env[lhs.name].data =
                         TLCEval([ix \in DOMAIN tgt.data |->
                             IF \E p \in ps : ixs[p] = ix THEN vals[CHOOSE p \in ps : ixs[p] = ix] ELSE tgt.data[ix]])]
+Assign(P, u, S, lhs0, rhs) == AssignM(P, u, S, lhs0, rhs, [on |-> FALSE])
+
+\* WHERE (mask1) assignments [ELSEWHERE (mask2) assignments]... [ELSEWHERE assignments] END WHERE
+\* [s |-> "where", conds <<mask1, ..>>, bodies <<<<assign..>>, ..>>, els <<assign..>>].  A mask is evaluated once,
+\* element by element, when its clause is reached, for the elements no earlier clause has taken (later changes
+\* of its operands do not matter); the assignments of a clause are executed in turn for the elements its mask
+\* selects, those of the final ELSEWHERE for the elements no mask selected.
+WhereStmt(P, u, s, S0) ==
+  IF Len(s.conds) = 0 \/ Len(s.bodies[1]) = 0 \/ s.bodies[1][1].s # "assign" \/ s.bodies[1][1].lhs.name \notin DOMAIN S0.env
+  THEN Fail(S0, "where-form")
+  ELSE
+  LET shape == AssignShape(P, S0, RealRef(S0.env, s.bodies[1][1].lhs))
+      full == PosSet(shape)
+      RECURSIVE Body(_, _, _, _), Arm(_, _, _)
+      Body(ss, i, S, cm) ==
+        IF i > Len(ss) \/ S.st # "ok" THEN S
+        ELSE IF ss[i].s # "assign" THEN Fail(S, "where-form")
+        ELSE Body(ss, i + 1, AssignM(P, u, S, ss[i].lhs, ss[i].rhs, [on |-> TRUE, shape |-> shape, ps |-> cm]), cm)
+      Arm(i, S, pend) ==
+        IF S.st # "ok" THEN S
+        ELSE IF i > Len(s.conds) THEN Body(s.els, 1, S, pend)
+        ELSE LET mv == TLCEval([p \in pend |-> EvalE(P, s.conds[i], S.env, p)]) IN
+             IF \E p \in pend : IsErr(mv[p]) THEN Fail(S, (mv[CHOOSE p \in pend : IsErr(mv[p])]).why)
+             ELSE IF \E p \in pend : mv[p].t # "log" THEN Fail(S, "type")
+             ELSE LET cm == {p \in pend : mv[p].v} IN Arm(i + 1, Body(s.bodies[i], 1, S, cm), pend \ cm)
+  IN IF shape = <<>> THEN Fail(S0, "where-form") ELSE Arm(1, S0, full)
 
 \* values printed by one PRINT item: scalars, or all elements of a whole array in element order
 PrintVals(P, e, env) ==
@@ -309,6 +341,7 @@ ExecStmt(P, u, s, S) ==
     [] s.s = "return" -> [S EXCEPT !.st = "return"]
     [] s.s \in {"nop", "raw"} -> S      \* "raw": text-only lines without run-time meaning (pragmas, comments)
     [] s.s = "assoc"  -> Associate(P, u, s, S)
+    [] s.s = "where"  -> WhereStmt(P, u, s, S)
     [] OTHER -> Fail(S, "unsupported-statement")
 
 \* ASSOCIATE (names => selectors).  A selector that is a variable, an array element or a rank-1 array
